@@ -10,6 +10,7 @@ import (
 	"sync"
 	"sync/atomic"
 	"time"
+	"unicode/utf8"
 
 	"github.com/ozontech/file.d/cfg"
 	"github.com/ozontech/file.d/fd"
@@ -785,8 +786,73 @@ func genC15Tpl(w *bufio.Writer, rng *hx.Rng, tier string) {
 	}
 }
 
+// a join_template case over plain string lines, bits from the real template functions
+func c15JTLine(w *bufio.Writer, names []string, lines [][]byte) {
+	var tpls []template.Template
+	for _, n := range names {
+		tp, _ := template.InitTemplate(n)
+		tpls = append(tpls, tp)
+	}
+	fmt.Fprintf(w, "c15.jt 0 %d", len(names))
+	for k, name := range names {
+		fmt.Fprintf(w, " %s %s", hx.Enc([]byte(name)), hx.B(tpls[k].Negate))
+	}
+	fmt.Fprintf(w, " 1 %s %d", hx.Enc([]byte("log")), len(lines))
+	for i, l := range lines {
+		fmt.Fprintf(w, " E 0")
+		for _, tp := range tpls {
+			fmt.Fprintf(w, " %s", hx.B(tp.StartCheck(string(l))))
+		}
+		for _, tp := range tpls {
+			fmt.Fprintf(w, " %s", hx.B(tp.ContinueCheck(string(l))))
+		}
+		fmt.Fprintf(w, " %s", jt.O(jt.KV{K: []byte("log"), V: &jt.Tree{Kind: jt.Str, Raw: l}}, jt.F("id", jt.Nu(strconv.Itoa(i)))).Tok())
+	}
+	w.WriteByte('\n')
+}
+
+// every class-deciding frame of c15.tpl inside a real run: [start line, frame, plain line] — is
+// the frame line a continuation? — and [frame, continuation, plain line] — does the frame start
+// a run? — per template; the deciding byte runs over the class boundaries (all 256 in thorough)
+func genC15JTFrames(w *bufio.Writer, tier string) {
+	edge := []byte("/09:@AFGZ[_`afgz{ ,.()\t\n\r\f\\x-=|\x00\x7f\x80\xff")
+	if tier == "thorough" {
+		edge = edge[:0]
+		for c := 0; c < 256; c++ {
+			edge = append(edge, byte(c))
+		}
+	}
+	shapes := []struct {
+		name        string
+		start, cont string
+	}{
+		{"go_panic", "panic: runtime error: x", "main.main()"},
+		{"cs_exception", "Unhandled exception. System.X: y", "   at Foo.Bar() in /x.cs:line 1"},
+		{"go_data_race", "WARNING: DATA RACE", "Read at 0x00c by goroutine 7:"},
+	}
+	frames := append([]string{}, c15TplFrames...)
+	for _, f := range c15TplFolded {
+		for k := 0; k < len(f); k++ {
+			frames = append(frames, f[:k]+"\x00"+f[k+1:])
+		}
+	}
+	for _, f := range frames {
+		for _, c := range edge {
+			line := []byte(strings.ReplaceAll(f, "\x00", string([]byte{c})))
+			if !utf8.Valid(line) {
+				continue // the line travels as a JSON string value
+			}
+			for _, sh := range shapes {
+				c15JTLine(w, []string{sh.name}, [][]byte{[]byte(sh.start), line, []byte("plain text")})
+				c15JTLine(w, []string{sh.name}, [][]byte{line, []byte(sh.cont), []byte("plain text")})
+			}
+		}
+	}
+}
+
 func genC15(w *bufio.Writer, rng *hx.Rng, tier string) {
 	genC15Tpl(w, rng, tier)
+	genC15JTFrames(w, tier)
 	genC15Join(w, rng, tier)
 	genC15JT(w, rng, tier)
 	genC15K8s(w, rng, tier)
